@@ -270,7 +270,7 @@ def c02():
 
 
 def c03():
-    return pfc_family('C03', 'pfc', 'h_pfc_c03', quick_bs=(2, 3), quick_shapes=[[2, 2, 2], [1, 2, 2]])
+    return pfc_family('C03', 'pfc', 'h_pfc_c03', quick_bs=(2, 3), quick_shapes=[[2, 2, 2], [1, 2, 2]], deep4=True)
 
 
 def c04():
@@ -343,7 +343,8 @@ def c13():
 def c14():
     obs = []
     for ka in (0, 1, 2):
-        obs += pfc_family('C14', 'pfc.aba.q%d' % ka, 'h_pfc_c14', quick_bs=(2,), quick_shapes=[[1, 2, 2]], sym_n2=False, timeout_q=900, extra_defs={'KA': ka}, thorough_extra=(ka == 0))
+        obs += pfc_family('C14', 'pfc.aba.q%d' % ka, 'h_pfc_c14', quick_bs=(2,), quick_shapes=[[1, 2, 2]] + ([[1, 2, 1]] if ka == 2 else []), sym_n2=False, timeout_q=900,
+                          extra_defs={'KA': ka}, thorough_extra=(ka == 0))
     obs += pfc_family('C14', 'pfc.state', 'h_pfc_c14s', quick_bs=(2, 3), quick_shapes=[[1, 2, 2]], sym_n2=False, timeout_q=600, thorough_extra=False)
     return obs
 
@@ -394,9 +395,6 @@ def coder_obs(prop, what):
     if 'tree' in what:
         shapes = [('l2', '{0,0,1,0,1,1}', 6, 2, Q), ('l3r', '{0,0,1,0,0,1,0,1,1,1}', 10, 3, Q), ('l3l', '{0,0,0,1,0,1,1,0,1,1}', 10, 3, T)]
         for nm, bits, nb, nl, tier in shapes:
-            obs.append(O('%s.dectree.saveload.%s' % (prop.lower(), nm), prop, 'h_coder.cpp', 'h_dectree_save', CODER_TUS, defs={'TREEBITS': bits, 'NTREEBITS': nb, 'NLEAVES': nl, 'DT_LOAD': None},
-                         cdefs=dict(c, IR2C_MAXELEMS=16), unwind=12, unwindset={'^(h_|_ZL)': 100, '_ZNSo5write': 33, '_ZNSi4read': 33}, tier=T, timeout=3600, mem_gb=10,
-                         bounds='decoding subtree of %d leaves (shape %s): save, save, load, save' % (nl, nm)))
             obs.append(O('%s.dectree.save.%s' % (prop.lower(), nm), prop, 'h_coder.cpp', 'h_dectree_save', CODER_TUS, defs={'TREEBITS': bits, 'NTREEBITS': nb, 'NLEAVES': nl}, cdefs=dict(c, IR2C_MAXELEMS=16),
                          unwind=12, unwindset={'^(h_|_ZL)': 100, '_ZNSo5write': 33, '_ZNSi4read': 33}, tier=tier, timeout=1800,
                          bounds='decoding subtree of %d leaves (shape %s), symbolic leaf symbols and prefix: two saves of one object' % (nl, nm)))
@@ -418,6 +416,19 @@ def pool_ob(name, prop, w, t, k, unwind, tier=Q, timeout=1500, variant=None, **k
     return O(name, prop, 'h_pool.cpp', 'h_pool', [], defs=defs, cdefs=cdefs, unwind=unwind, tier=tier, timeout=timeout, engine='E2', e2_setup='h_pool_setup', mem_gb=8,
              bounds='%d worker(s), %d task(s)%s, every schedule with at most %d context switches (pre-emption at lock/wait/join points), loops unwound %d times (checked)' %
                     (w, t, ', last task stops the pool' if variant else '', k - 1, unwind), **kw)
+
+
+def c11():
+    obs = []
+    for nm, w, t, k, u, tier, to, var in [('w1.t1.k4', 1, 1, 4, 4, Q, 2400, None), ('w1.t0.k4', 1, 0, 4, 3, Q, 2400, None), ('w1.t1.k5', 1, 1, 5, 4, T, 7200, None), ('w1.t1.k5.laststops', 1, 1, 5, 4, T, 10800, 'LAST_TASK_STOPS'),
+                                            ('w1.t2.k6', 1, 2, 6, 5, T, 10800, None), ('w2.t1.k5', 2, 1, 5, 4, T, 10800, None)]:
+        o = pool_ob('c11.pool.' + nm, 'C11', w, t, k, u, tier=tier, timeout=to, variant=var)
+        o.defs['RACE'] = None
+        o.cdefs['VERIF_NREG'] = 3 + w
+        o.mem_gb = 30          # the lockset monitor doubles the formula: one C11 query at a time (memory gate)
+        o.bounds += '; every load/store of the thread code that touches the pool, a worker or the task counters is checked by the lockset monitor'
+        obs.append(o)
+    return obs
 
 
 def c10():
@@ -461,7 +472,7 @@ def xb():
     return blocks_obs('XB', ['queries', 'table', 'saveload'])
 
 
-TABLE = {'XB': xb, 'XR': xr, 'X09': c09, 'C10': c10, 'C18': c18, 'C01': c01, 'C02': c02, 'C03': c03, 'C04': c04, 'C06': c06, 'C07': c07, 'C08': c08, 'C12': c12, 'C13': c13, 'C14': c14,
+TABLE = {'XB': xb, 'XR': xr, 'X09': c09, 'C10': c10, 'C11': c11, 'C18': c18, 'C01': c01, 'C02': c02, 'C03': c03, 'C04': c04, 'C06': c06, 'C07': c07, 'C08': c08, 'C12': c12, 'C13': c13, 'C14': c14,
          'C15': c15, 'C16': c16, 'C17': c17, 'C19': c19}
 
 
